@@ -57,6 +57,9 @@ def make_model(i, kind, n, solved):
     m.add_variable('Sstr', ['s%d' % k for k in range(n)], dtype='<U3')
     m.add_variable('_hidden', 7.5, dtype=float)
     m.add_variable('_ihid', 4, dtype=int)
+    if m.names and not m.names[0].startswith('_'):
+        # an internal variable whose name is '_' + the name of a model variable (its storage key differs: '__<name>')
+        m.add_variable('_' + m.names[0], [k % 2 == 1 for k in range(n)], dtype=bool)
     if solved:
         m.solve(max_iter=5, failures='ignore', errors='ignore')
     return m, labels
@@ -78,7 +81,7 @@ def check_table(df, m, labels, status, iterations, include_internal, tag):
         out.append(('%s:index' % tag, [repr(x) for x in labels], [repr(x) for x in df.index], 'index is not the span'))
         return out
     for c in want_cols:
-        a = m[c]
+        a = vars(m)['_' + c]  # the stored series itself (independent of the item-access path the export uses)
         col = df[c]
         if len(col) != len(a) or not all(_eq(x, y) for x, y in zip(col.tolist(), a.tolist())):
             out.append(('%s:values' % tag, a.tolist(), col.tolist(), 'column %s does not hold the series' % c))
@@ -119,6 +122,24 @@ def run_model_case(case):
         if canon(m2[name]) != canon(m[name]):
             out.append(('from_dataframe:values', m[name].tolist(), m2[name].tolist(), 'values of %s not reproduced' % name))
             return out
+    return out
+
+
+def run_sequence_case(case):
+    """All eight flag combinations exported one after the other from the SAME object (an export must not change the model)."""
+    i, kind, n, solved, order = case['i'], case['span'], case['n'], case['solved'], case['order']
+    m, labels = make_model(i, kind, n, solved)
+    names_before = list(m.names)
+    out = []
+    flags = FLAGS if order == 'forward' else list(reversed(FLAGS))
+    for k, (status, iterations, internal) in enumerate(flags):
+        df = m.to_dataframe(status=status, iterations=iterations, include_internal=internal)
+        v = check_table(df, m, labels, status, iterations, internal, 'sequence')
+        if list(m.names) != names_before:
+            v.append(('sequence:names-changed', names_before, list(m.names), 'an export changed the model\'s variable list'))
+        if v:
+            out += [(key, exp, obs, what + ' (export %d of a sequence on one object)' % (k + 1)) for key, exp, obs, what in v]
+            break
     return out
 
 
@@ -239,6 +260,13 @@ def run_block(block, tier, seed):
                         acc.nontrivial += 1
                         for key, exp, obs, what in guarded(run_model_case, case):
                             acc.violation(key, case, exp, obs, what)
+            for i in range(len(SCRIPTS)):
+                for order in ('forward', 'backward'):
+                    case = dict(kind='sequence', i=i, span=kind, n=n, solved=True, order=order, script=SCRIPTS[i])
+                    acc.evaluations += 1
+                    acc.nontrivial += 1
+                    for key, exp, obs, what in guarded(run_sequence_case, case):
+                        acc.violation(key, case, exp, obs, what)
             case = dict(kind='container', span=kind, n=n)
             acc.evaluations += 1
             acc.nontrivial += 1
@@ -283,7 +311,7 @@ def run_one(case):
     k = case['kind']
     if k == 'symbols':
         return run_symbols_case(case)[0]
-    return guarded({'model': run_model_case, 'container': run_container_case, 'linker': run_linker_case}[k], case)
+    return guarded({'model': run_model_case, 'container': run_container_case, 'linker': run_linker_case, 'sequence': run_sequence_case}[k], case)
 
 
 def finalize(acc, tier, seed):
